@@ -117,3 +117,34 @@ Theorem C04_checksums_read_back :
   (forall p, ~ In p (map fst (ti_checksums x)) -> assoc p (ti_checksums x') = None).
 Proof. exact checksums_read_back. Qed.
 Print Assumptions C04_checksums_read_back.
+
+(* [images-<platform>]: every image table of the written object is read back under its platform with exactly its (name, path)
+   entries, and no other platform appears.  The reader strips a "-<arch>" suffix from section names (a historical spelling), so the
+   statement is for platforms that are the architecture itself or do not end in "-<arch>" - where <arch> is the architecture read
+   back, which C04_release_and_tree_read_back equates with the one written.  The proof needs that the written table never holds
+   two sections of one name (also proved: every writer step opens a fresh section or sets an option in an existing one). *)
+From PM Require Import Proofs.TreeInfoSections Proofs.TreeInfoImages.
+Theorem C04_image_tables_are_read_back :
+  forall x mv t x', ser_ti x mv = Ok t -> deser_ti t = Ok x' -> NoDup (map fst (ti_images x)) ->
+  (forall pi, In pi (ti_images x) -> NoDup (map fst (snd pi))) ->
+  (forall a, getf (ti_tree x') (F"arch") = PStr a ->
+     forall pi, In pi (ti_images x) -> fst pi = a \/ endswith (fst pi) (c_dash :: a) = false) ->
+  (forall pi, In pi (ti_images x) ->
+     exists tab, assoc (fst pi) (ti_images x') = Some tab /\ forall n v, In (n, v) tab <-> In (n, v) (snd pi)) /\
+  (forall k, ~ In k (map fst (ti_images x)) -> assoc k (ti_images x') = None).
+Proof. exact images_read_back. Qed.
+Print Assumptions C04_image_tables_are_read_back.
+
+Example C04_image_tables_nonvacuous :
+  exists t x', ser_ti ex_ti_images None = Ok t /\ deser_ti t = Ok x' /\ NoDup (map fst (ti_images ex_ti_images)) /\
+    (forall pi, In pi (ti_images ex_ti_images) -> NoDup (map fst (snd pi))) /\
+    getf (ti_tree x') (F"arch") = PStr (F"x86_64") /\
+    (forall pi, In pi (ti_images ex_ti_images) -> fst pi = F"x86_64" \/ endswith (fst pi) (c_dash :: F"x86_64") = false) /\
+    assoc (F"xen") (ti_images x') = Some [(F"kernel", PStr (F"images/pxeboot/vmlinuz-xen"))].
+Proof. exact images_read_back_nonvacuous. Qed.
+
+(* the written table never holds two sections of one name *)
+Theorem C04_written_section_names_are_distinct :
+  forall x mv t, ser_ti x mv = Ok t -> NoDup (map fst t).
+Proof. intros x mv t H. destruct (ser_ti_images_stage x mv t H) as (p10 & p11 & N & _). exact N. Qed.
+Print Assumptions C04_written_section_names_are_distinct.
